@@ -45,15 +45,15 @@ TEXT = {
             'atom menu stands for maths material of its kind', TECH + '; rotation model'),
     'C11': ('model_checking', 'Equation trees rows x sections x parts over a part menu, all frames, languages, simple mode; oracle is the README rewriting system written over the tree.',
             'number of blanks between items is not fixed by the documented scheme and is normalised', TECH + '; README rewriting system as model'),
-    'C12': ('model_checking', 'All trees of language constructs up to the bound x thresholds x insertion sizes x main languages; oracle is a language-stack model: one part per word, right label, placeholder rule for flat short insertions, conservation against the single-language run.',
+    'C12': ('model_checking', 'All trees of language constructs (insertions, environments, \\selectlanguage at top level / in insertions / in footnotes / in headings, footnotes, font arguments, headings) up to the bound x thresholds x insertion sizes x main languages x trailing-macro and shorthand-probe variants; oracle is a language-stack model: one part per word, right label, text expanded with the settings of its label, placeholder rule for flat short insertions, no split at a same-language insertion, conservation against the single-language run.',
             'joining across nested / empty insertions is outside the model (statement fixes labels only there)', TECH + '; language stack model'),
     'C13': ('model_checking', 'replace_phrases on all texts up to length 7 (quick) / 8 (thorough) over {a,b,blank,newline,.,1(,tab)} with a non-monotonic position list under 14 rule lists, compared exactly with a matcher written without re; plus end-to-end documents through tex2txt in single- and multi-language mode.',
             'the position list values are never inspected by the function, one injective list stands for all', TECH + ' (matcher without re)'),
-    'C14': ('model_checking', 'Catalogue documents x every word flagged x output modes plain/json/xml/xml-b/html/server driven in process through the real top-level shell code, bound to the CLI and a real server process by byte-identical conformance replays.',
+    'C14': ('model_checking', 'Catalogue documents x every word flagged x output modes plain/json/xml/xml-b/html/server driven in process through the real top-level shell code (XML excerpts included; a second request to the same server object must be submitted as to a fresh server), bound to the CLI and a real server process by byte-identical conformance replays.',
             'fake proofreader mimics LanguageTool answers; real LanguageTool is not run', TECH + '; location equality across report formats; CLI conformance replay'),
-    'C15': ('fault_enumeration', 'All single-field deletions, type changes, value perturbations and byte truncations of a valid answer x output modes; oracle: in-file report or one-line diagnostic with exit status 1.',
+    'C15': ('fault_enumeration', 'All single-field deletions, type changes, value perturbations (numbers; ten hostile strings incl. the report\'s own row markup and surrogate escapes in both cases) and byte truncations of a valid answer x output modes; oracle: in-file report or one-line diagnostic with exit status 1.',
             'the answer menu is built from the fields LanguageTool sends', 'exhaustive answer-fault enumeration (deviation bound 1, pairs in thorough); CLI conformance replay'),
-    'C16': ('model_checking', 'Plain-input sources x all sets of up to 2 matches (3 on short sources) over all in-range offsets and lengths x context sizes x hostile strings, and runs with two files; oracle parses the report with html.parser and compares rows, highlights and titles with the source.',
+    'C16': ('model_checking', 'Plain-input sources (incl. missing final line break, trailing blank lines, form feed / U+2028 / NEL inside lines) x all sets of up to 2 matches (3 on short sources) over all in-range offsets and lengths x context sizes x hostile strings, and runs with two files; oracle parses the report with html.parser and compares rows, highlights and titles with the source.',
             'html.parser is the trusted reader of the markup', TECH + '; HTML structure model'),
     'C17': ('model_checking', 'Every call history up to depth 2 (quick; 3 thorough, plus depth 3 behind the writer calls) over 39 (document, options) calls, and every '
             'request history up to depth 3 (4) over 11 requests to one initialised server, is executed in a forked child of a pristine worker; the last '
